@@ -67,6 +67,7 @@ fixed('C05', 'remove_border_labels(0)', "SegmentationImage.remove_border_labels(
 fixed('C05', 'removed deblended labels are dropped', "after remove_label(child) of a deblended source, deblended_labels contained the background label 0")
 # ---- C12
 fixed('C12', 'honours an input group_id', "PSFPhotometry: a group_id column supplied in init_params was overwritten with the source ids (every source fitted alone)")
+fixed('C12', 'masks non-finite pixels also', "PSFPhotometry._make_mask returned the bare input mask: NaN pixels entered the fit whenever a mask was given (fit failure / wrong npixfit)")
 # ---- C17 / C18
 fixed('C17', 'centroid_sources no longer', "centroid_sources(error=... or xpeak=/ypeak=) with >= 2 positions: NaN from the second source on (keyword dict reused across sources)")
 fixed('C18', 'make_model_image attaches', "make_model_image: unit-ful model with row 0 off the image raised UnitTypeError (units attached only when i == 0)")
